@@ -40,6 +40,9 @@ func c07Spec(rng *rand.Rand, i int) (*SessSpec, string) {
 	}
 	sp := &SessSpec{NumVB: 1 + rng.Intn(4), Nodes: nodes, Replicas: repl, AckSeed: rng.Int63(), PNow: 1, Backend: "mem", Backlog: map[int][][]ItemSpec{}, RollbackMitigation: true,
 		RMIntervalMs: 10 + rng.Intn(20), ObserveInit: map[string][2]uint64{}, UnassignedReplicas: map[int][]int{}}
+	// every other session: the node announces its snapshots as on-disk (backfill) snapshots - persisted on the active copy says
+	// nothing about the replicas, the gate is the same
+	sp.DiskMarkers = i%2 == 1
 	o := &HistOpts{NumVB: sp.NumVB, PReserved: 0.05, PSystem: 0.08, PSeqAdv: 0.3, MaxItems: 4}
 	ctr := 0
 	mcVB := -1
@@ -100,6 +103,31 @@ func c07Spec(rng *rand.Rand, i int) (*SessSpec, string) {
 	wr := func(vb, n int) Step { return Step{Op: "waitrounds", VB: vb, N: n} }
 	pr := present(vb)
 	hi := uint64(12)
+	if kind == "lagging" && i%16 == 0 {
+		// the gated vBucket is rolled back at its first open (stored position F, rollback point R < F, a new history without
+		// an item at F): while the client skips what it has seen, and afterwards, nothing passes that the copies have not
+		// persisted
+		F := uint64(4 + rng.Intn(5))
+		R := uint64(rng.Intn(int(F)))
+		var snaps [][]ItemSpec
+		seq := uint64(0)
+		for k := 0; k < 3 || seq < F+3; k++ {
+			sn := genSnap(rng, o, &ctr)
+			for j := range sn {
+				seq++
+				if seq == F {
+					seq++
+				}
+				sn[j].Seq = seq
+			}
+			snaps = append(snaps, sn)
+		}
+		sp.Backlog[vb] = snaps
+		sp.PreStore = map[int][4]uint64{vb: {0x1111, F, F, F}}
+		sp.Rollbacks = map[int]uint64{vb: R}
+		sp.Failover = map[int][][2]uint64{vb: {{0xbbb, R + 1}, {0xaaa, 0}}}
+		hi = seq
+	}
 	switch kind {
 	case "lagging", "unassigned":
 		// replicas advance one at a time; the slowest one gates
